@@ -387,6 +387,28 @@ func runC16(c *Ctx) {
 					cli++
 				}
 			}
+			// the same through a helper that receives the filter and applies filter.Match itself
+			EachInstr(f, func(in ssa.Instruction) {
+				ci := asCall(in)
+				if ci == nil || matchCall(ci) {
+					return
+				}
+				cal := w.Callee(ci)
+				if cal == nil || !w.inModule(cal) || !w.MayReach(cal, matchCall, 2) {
+					return
+				}
+				for _, arg := range ci.Common().Args {
+					a := D(arg)
+					if typeShort(arg.Type()) != "tagsFilter" {
+						continue
+					}
+					if strings.Contains(a, "serverTagsFilter") {
+						srv++
+					} else if strings.Contains(a, "tagsFilter") {
+						cli++
+					}
+				}
+			})
 		}
 		c.CheckAt("C16.R1", FuncName(fn)+": applies the server tags filter on every delivery branch", w.Pos(fn.Pos()), srv >= d.minPairs, fmt.Sprintf("%d server-filter Match call(s), %d branch(es) deliver publications", srv, d.minPairs))
 		c.CheckAt("C16.R1", FuncName(fn)+": applies the client tags filter on every delivery branch", w.Pos(fn.Pos()), cli >= d.minPairs, fmt.Sprintf("%d client-filter Match call(s), %d branch(es) deliver publications", cli, d.minPairs))
@@ -525,13 +547,41 @@ func runC39(c *Ctx) {
 				return
 			}
 			k++
-			inBuffered := GuardedBy(r, func(g Guard) bool {
+			// (all equivalent spellings: len>0 taken, len==0 not taken, …; the second parameter is the buffered set)
+			inBuffered := Guarded(r, func(g Guard) bool {
 				b, ok := g.Cond.(*ssa.BinOp)
-				return ok && g.Pol && b.Op == token.GTR && strings.Contains(D(b.X), "len(arg:bufferedPubs)")
+				if !ok {
+					return false
+				}
+				lc, isLen := b.X.(*ssa.Call)
+				if !isLen || len(mp.Params) < 2 {
+					return false
+				}
+				if bi, isB := lc.Call.Value.(*ssa.Builtin); !isB || bi.Name() != "len" || lc.Call.Args[0] != ssa.Value(mp.Params[1]) {
+					return false
+				}
+				k, isC := constIntOf(b.Y)
+				if !isC {
+					return false
+				}
+				switch {
+				case k == 0 && (b.Op == token.GTR || b.Op == token.NEQ):
+					return g.Pol
+				case k == 0 && (b.Op == token.EQL || b.Op == token.LEQ):
+					return !g.Pol
+				case k == 1 && b.Op == token.GEQ:
+					return g.Pol
+				case k == 1 && b.Op == token.LSS:
+					return !g.Pol
+				}
+				return false
 			})
-			disc := GuardedBy(r, func(g Guard) bool {
+			disc := Guarded(r, func(g Guard) bool {
 				b, ok := g.Cond.(*ssa.BinOp)
-				return ok && g.Pol && b.Op == token.NEQ && loadsField(b.X, "Publication", "Offset") && strings.Contains(D(b.Y), "+ 1")
+				if !ok || !loadsField(b.X, "Publication", "Offset") || !strings.Contains(D(b.Y), "+ 1") {
+					return false
+				}
+				return (b.Op == token.NEQ && g.Pol) || (b.Op == token.EQL && !g.Pol)
 			})
 			c.Check("C39.R3", r, "failure only when buffered publications were present", inBuffered, "without buffered publications there is nothing to be discontinuous with")
 			c.Check("C39.R3", r, "failure only behind an offset discontinuity", disc, "a contiguous merge must succeed")
